@@ -84,7 +84,17 @@ def _worker(args):
             if kind == "witness":
                 ok, why = True, ""
                 diverged = False
-                if (p.get("exception") or None) != (out.get("exception") or None):
+                pe, oe = (p.get("exception") or None), (out.get("exception") or None)
+                if pe != oe and res["relaxed"] and all(e is None or e.startswith("Reject") for e in (pe, oe)):
+                    # over-approximated run: the witness took another branch concretely and the SCENARIO (not the code under test) gave up
+                    # on one side ("Reject: ..."); same treatment as diverging outcomes
+                    diverged = True
+                    res["witness_diverged"] = res.get("witness_diverged", 0) + 1
+                    valid = {o["name"] for o in p["obligations"] if o["status"] == "valid"}
+                    notvalid = {o["name"] for o in p["obligations"] if o["status"] != "valid"}
+                    bad = [f for f in out["failed"] if f in valid and f not in notvalid and not f.startswith("CANARY")]
+                    ok, why = (False, f"checks proved valid fail concretely: {bad}") if bad else (True, "")
+                elif pe != oe:
                     ok, why = False, f"exception sym={p.get('exception')} conc={out.get('exception')} {out.get('exception_text','')}"
                 elif p["outcomes"] != out["outcomes"]:
                     ok, why = False, f"outcomes sym={p['outcomes']} conc={out['outcomes']}"
